@@ -64,7 +64,11 @@ func (s *Solver) prelude() {
 	s.items = 0
 	s.stack = nil
 	s.frames = []frameDefs{{}}
-	s.send("(set-option :timeout 20000)\n(declare-sort S 0)\n")
+	if strings.HasPrefix(*flagSolver, "cvc5") {
+		s.send("(set-logic ALL)\n(set-option :tlimit-per 20000)\n(declare-sort S 0)\n")
+	} else {
+		s.send("(set-option :timeout 20000)\n(declare-sort S 0)\n")
+	}
 }
 
 func (s *Solver) Close() {
